@@ -35,7 +35,7 @@ ASSUMPTIONS = [
     'range ends) are executed and counted but not judged',
     'Path/File selector types are excluded (they depend on the file system, not on declared constraints)',
 ]
-REQUIRED = {'mode_inherited': 100, 'mode_mutated': 100, 'attempts_judged': 20000, 'accepted': 3000, 'rejected': 3000, 'boundary_attempts': 3000}
+REQUIRED = {'mode_inherited': 100, 'mode_mutated': 100, 'attempts_judged': 20000, 'accepted': 3000, 'rejected': 3000, 'boundary_attempts': 3000, 'legacy_positional_declarations': 300}
 
 _st = {}
 NAN = float('nan')
@@ -243,8 +243,21 @@ def random_config(rng):
 def declare(param, t, cfg, default):
     kw = {k: v for k, v in cfg.items()}
     T = getattr(param, t)
-    if t == 'List' and 'item_type' in kw:
-        pass
+    npos = _st.get('positional', 0)
+    if npos:
+        # the legacy declaration style (deprecated, still supported): the leading arguments given positionally, in the
+        # order of the signature, the others by keyword
+        import inspect
+        order = [n for n, q in inspect.signature(T.__init__).parameters.items()
+                 if n != 'self' and q.kind is not q.VAR_KEYWORD and q.kind is not q.VAR_POSITIONAL]
+        args = []
+        allkw = dict(default=default, **kw)
+        for n in order[:npos]:
+            if n not in allkw:
+                break
+            args.append(allkw.pop(n))
+        if args:
+            return T(*args, **allkw)
     return T(default=default, **kw)
 
 
@@ -347,6 +360,9 @@ def config_class(t, cfg):
 def run_case(idx, rng, P, rep):
     param = _st['param']
     matrix = _st['matrix']
+    _st['positional'] = rng.choice([0, 0, 0, 1, 2, 3])
+    if _st['positional']:
+        rep.count('legacy_positional_declarations')
     if idx < len(matrix):
         t, cfg, cands = matrix[idx]
         routes = ROUTES
